@@ -1,8 +1,14 @@
     // ===== src/filter/bcj/ia64.rs =====
-    use crate::filter::bcj::verif_kani::bcj_group_roundtrip;
+    use crate::filter::bcj::verif_kani::{bcj_group_roundtrip, bcj_split_homomorphism};
     #[kani::proof]
     #[kani::unwind(20)]
     fn c11_bcj_ia64_group() { bcj_group_roundtrip::<16>(BCJFilter::new_ia64, 16, 0, 15); }
     #[kani::proof]
     #[kani::unwind(20)]
     fn c11_bcj_ia64_short() { bcj_group_roundtrip::<19>(BCJFilter::new_ia64, 16, 0, 15); }
+    #[kani::proof]
+    #[kani::unwind(40)]
+    fn c07_bcj_ia64_split_k20_enc() { bcj_split_homomorphism::<34>(BCJFilter::new_ia64, 16, 20, true); }
+    #[kani::proof]
+    #[kani::unwind(40)]
+    fn c07_bcj_ia64_split_k20_dec() { bcj_split_homomorphism::<34>(BCJFilter::new_ia64, 16, 20, false); }
